@@ -657,3 +657,45 @@ v('A20-8','C20','breaking','audit round 3 re-probe, C20 #1b near-variant: the pr
 			continue
 		}
 		b, err := safeMarshalText('''))
+v('A17-3','C17','breaking','audit round 3 re-probe, C17 #1 near-variant: refused inputs are cached in a pointer-typed package variable whose methods store through their receiver; after the caller overwrites its buffer a later Parse reports the overwritten bytes',
+  ('sem/parse.go','type form int','''// rejections remembers inputs refused by pattern.
+type rejections struct {
+	mu sync.Mutex
+	m  map[string]error
+}
+
+func (r *rejections) get(key string) error {
+	r.mu.Lock()
+	defer r.mu.Unlock()
+	return r.m[key]
+}
+
+func (r *rejections) put(key string, err error) {
+	r.mu.Lock()
+	defer r.mu.Unlock()
+	if r.m == nil {
+		r.m = make(map[string]error)
+	}
+	if len(r.m) < 256 {
+		r.m[key] = err
+	}
+}
+
+var rejected = &rejections{}
+
+type form int'''),
+  ('sem/parse.go','''	parts := pattern.FindSubmatch([]byte(input))
+	if len(parts) == 0 {
+		return Ver{}, newParseError(funcName, input, nil)
+	}''','''	key := funcName + ":" + string(input)
+	if err := rejected.get(key); err != nil {
+		return Ver{}, err
+	}
+	parts := pattern.FindSubmatch([]byte(input))
+	if len(parts) == 0 {
+		err := newParseError(funcName, input, nil)
+		rejected.put(key, err)
+		return Ver{}, err
+	}'''),
+  ('sem/parse.go','import (','''import (
+	"sync"'''))
